@@ -68,6 +68,8 @@ type report struct {
 	Failed     []failure      `json:"failed"`
 	Skipped    []string       `json:"skipped_statements"`
 	Nodes      int            `json:"definitions"`
+	Types      []regType      `json:"types"`
+	Order      []string       `json:"definition_order"`
 	OutSHA     string         `json:"output_sha256"`
 }
 
@@ -89,6 +91,7 @@ func main() {
 	repo := flag.String("repo", "/repo", "repository root")
 	out := flag.String("out", "", "output directory for generated .v files")
 	rep := flag.String("report", "", "report json path")
+	reg := flag.String("registry", "", "path of the generated Go registry for the harness")
 	flag.Parse()
 	exe, _ := os.Executable()
 	_ = exe
@@ -98,6 +101,9 @@ func main() {
 	}
 	if *rep != "" {
 		*rep, _ = filepath.Abs(*rep)
+	}
+	if *reg != "" {
+		*reg, _ = filepath.Abs(*reg)
 	}
 	if ovDir == "" {
 		// translator/overrides next to the sources (bin/vcheck runs the binary from work/)
@@ -119,6 +125,12 @@ func main() {
 	}
 	t.index()
 	t.translateAll()
+	t.allCoercions()
+	if *reg != "" {
+		if err := t.emitRegistry(*reg); err != nil {
+			fatal(err)
+		}
+	}
 	text := t.emit()
 	sum := sha256.Sum256([]byte(text))
 	t.rep.OutSHA = hex.EncodeToString(sum[:])
@@ -445,6 +457,7 @@ func (t *translator) emit() string {
 			visit(d, append(stack, n))
 		}
 		done[n] = true
+		t.rep.Order = append(t.rep.Order, n)
 		b.WriteString(fmt.Sprintf("(* %s [%s] *)\n", nd.src, nd.kind))
 		b.WriteString(nd.text)
 		b.WriteString("\n")
